@@ -65,22 +65,28 @@ Fixpoint occs_eqb (a : list occ) (b : list rocc) : bool :=
   | _, _ => false
   end.
 
-(* recorded primitive pipeline result of one document *)
+(* recorded primitive pipeline result of one document: the root (Normalize ..
+   AddEntriesToMerkleTree into a new tree), whether proc.Compact(SafeMode=false)
+   succeeds, and the (key hash, value hash) of every entry EntriesFromRDF returns
+   (None: it returns an error) *)
 Inductive pres := PRoot (root : limbs) | PErr.
-Definition ptable := list (json * pres * bool).   (* document, Normalize..root, Compact(unsafe) ok? *)
+Definition prow := (json * pres * bool * option (list (limbs * limbs)))%type.
+Definition ptable := list prow.
 
-Fixpoint plookup (d : json) (t : ptable) : option (pres * bool) :=
+Fixpoint plookup (d : json) (t : ptable) : option (pres * bool * option (list (limbs * limbs))) :=
   match t with
   | [] => None
-  | (k, r, c) :: t' => if json_eqb k d then Some (r, c) else plookup d t'
+  | (k, r, c, e) :: t' => if json_eqb k d then Some (r, c, e) else plookup d t'
   end.
 
 (* the backend of a case: expansion is the identity on the document — with [scan],
    provided the contexts can be processed under the given loader view (decided by the
    model's own context processing; used for the runs whose loader stops answering,
-   switched off elsewhere to keep the evaluation cheap) —, ToRDF is the identity, the root and the compaction outcome
-   come from the table; a miss is a Panic and therefore a disagreement *)
-Definition table_backend (scan : bool) (t : ptable) : backend json json Z unit :=
+   switched off elsewhere to keep the evaluation cheap) —, ToRDF is the identity, the
+   entries (as key/value hashes) and the compaction outcome come from the table; a miss
+   is a Panic and therefore a disagreement.  The tree steps (one Add per entry,
+   duplicate keys, failing Add) are the model's. *)
+Definition table_backend (scan : bool) (t : ptable) : backend json json (Z * Z) unit :=
   {| b_expand := fun ld d => if scan then
                                match undefined_occ ld run_fuel d with
                                | Ok _ => Ok d
@@ -90,21 +96,30 @@ Definition table_backend (scan : bool) (t : ptable) : backend json json Z unit :
                                end
                              else Ok d;
      b_to_rdf := fun d => Ok d;
-     b_merk := fun d => match plookup d t with
-                        | Some (PRoot r, _) => Ok (z_of_limbs r)
-                        | Some (PErr, _) => Err "pipeline"
-                        | None => Panic "oracle-miss"
-                        end;
+     b_entries := fun d => match plookup d t with
+                           | Some (_, _, Some es) =>
+                               Ok (map (fun kv => (z_of_limbs (fst kv), z_of_limbs (snd kv))) es)
+                           | Some (_, _, None) => Err "entries"
+                           | None => Panic "oracle-miss"
+                           end;
+     b_kv := fun e => Ok e;
      b_compact := fun d => match plookup d t with
-                           | Some (_, true) => Ok tt
-                           | Some (_, false) => Err "compact"
+                           | Some (_, true, _) => Ok tt
+                           | Some (_, false, _) => Err "compact"
                            | None => Panic "oracle-miss"
                            end |}.
 
 Inductive robs := ORoot (root : limbs) | OErr | OPanic | OHang.
-Definition ragree (r : res Z) (o : robs) : bool :=
+(* outcome class; on success into a NEW tree the implementation's root must be the
+   root the table records for that document (the model holds the same leaves: it
+   added exactly the table's entries) *)
+Definition ragree (t : ptable) (d : json) (r : res (list (Z * Z) * mtree)) (o : robs) : bool :=
   match r, o with
-  | Ok z, ORoot l => Z.eqb z (z_of_limbs l)
+  | Ok _, ORoot l =>
+      match plookup d t with
+      | Some (PRoot root, _, _) => Z.eqb (z_of_limbs root) (z_of_limbs l)
+      | _ => false
+      end
   | Err _, OErr => true
   | Panic _, OPanic => true
   | _, _ => false
@@ -138,6 +153,16 @@ Definition run := (bool * list ropt * robs)%type.
    while Compact runs, safe mode, outcome *)
 Definition frun := (list string * list string * bool * robs)%type.
 
+(* one call on the stripped document (default options) with a caller-supplied tree:
+   the 0-based index of the Add call that fails, the key hash already present in
+   the tree, the outcome *)
+Definition trun := (option int * option limbs * robs)%type.
+Definition tree_of (r : trun) : mtree :=
+  let '(fa, pre, _) := r in
+  {| t_leaves := match pre with Some k => [(z_of_limbs k, (-1)%Z)] | None => [] end;
+     t_adds := match pre with Some _ => 1 | None => 0 end;
+     t_fail_at := match fa with Some i => Some (Z.to_nat (Uint63.to_Z i)) | None => None end |}.
+
 Record c15case := {
   k_id : int;
   k_loader : list (string * json);
@@ -146,13 +171,14 @@ Record c15case := {
   k_table : ptable;
   k_runs : list run;
   k_flaky : list frun;
+  k_trees : list trun;
   k_stripped_unsafe : robs;                (* MerklizeJSONLD(stripped, WithSafeMode(false)) *)
   k_dropped : option (list rocc)           (* None: the implementation could not establish it *)
 }.
 Definition mkc15 (id : int) (ld : list (string * json)) (d s : json) (t : ptable)
-           (runs : list run) (fl : list frun) (su : robs) (dr : option (list rocc)) : c15case :=
+           (runs : list run) (fl : list frun) (tr : list trun) (su : robs) (dr : option (list rocc)) : c15case :=
   {| k_id := id; k_loader := ld; k_doc := d; k_stripped := s; k_table := t; k_runs := runs;
-     k_flaky := fl; k_stripped_unsafe := su; k_dropped := dr |}.
+     k_flaky := fl; k_trees := tr; k_stripped_unsafe := su; k_dropped := dr |}.
 
 Definition case_ok (c : c15case) : bool :=
   let full := loader_of (k_loader c) None None in
@@ -163,20 +189,27 @@ Definition case_ok (c : c15case) : bool :=
   (* option plumbing (mode AND loader configuration) + safe-mode decision + root *)
   forallb (fun r : run =>
              let '(default_nil, opts, obs) := r in
-             ragree (MerklizeJSONLD run_fuel B (if default_nil then None else full)
+             ragree (k_table c) (k_doc c)
+                    (MerklizeJSONLD run_fuel B (if default_nil then None else full)
                                     (map (opt_of full) opts) (k_doc c)) obs)
           (k_runs c)
   (* loaders that stop serving at some point of the call *)
   && forallb (fun r : frun =>
              let '(a1, a2, safe, obs) := r in
-             ragree (MerklizeJSONLD run_fuel Bs None
+             ragree (k_table c) (k_doc c) (MerklizeJSONLD run_fuel Bs None
                        [WithDocumentLoader (loader_of (k_loader c) (Some a1) (Some a2)); WithSafeMode safe]
                        (k_doc c)) obs)
           (k_flaky c)
+  (* caller-supplied trees: a failing Add step / an occupied path must fail the call *)
+  && forallb (fun r : trun =>
+             ragree (k_table c) (k_stripped c)
+                    (MerklizeJSONLD run_fuel B None [WithDocumentLoader full; WithMerkleTree (tree_of r)]
+                                    (k_stripped c)) (snd r))
+          (k_trees c)
   (* the model's stripped document is the one the harness built ... *)
   && json_eqb sd (k_stripped c)
   (* ... and merklizing it without safe mode gives what the implementation gives (C15_unsafe) *)
-  && ragree (merklize_doc run_fuel B false full sd) (k_stripped_unsafe c)
+  && ragree (k_table c) sd (merklize_doc run_fuel B false full fresh_tree sd) (k_stripped_unsafe c)
   (* the stripped document has no undefined key left *)
   && match undefined_occ ld run_fuel sd with Ok [] => true | _ => false end
   (* which members were dropped, and which of them safe mode reports *)
